@@ -993,4 +993,125 @@ theorem segGetData_segFinal (c : Cls) (enc : Enc) (img : Bytes) (k : Nat) (isLaz
       simp [segData, hs, hdn]
     · simp [segData, hs, hdn]
 
+/-! ### `load` in stages (definitionally the same computation, cut at the points the ladder needs) -/
+
+def loadSections (c : Cls) (enc : Enc) (tr : List Trans) (isLazy : Bool) (hdr : Bytes) (st : IStream) :
+    LoadSt × List SecBuf :=
+  if load_sections_entsize_bad (Hdr.e_shnum c enc hdr) (Hdr.ident hdr EI_CLASS) (Hdr.e_shentsize c enc hdr)
+  then ({ st := st }, [])
+  else loadSectionsLoop c enc tr isLazy (Hdr.e_shoff c enc hdr).toInt (Hdr.e_shentsize c enc hdr).toNat
+         (Hdr.e_shnum c enc hdr).toNat 0 { st := st } []
+
+def loadNames (c : Cls) (enc : Enc) (tr : List Trans) (hdr : Bytes) (ls : LoadSt) (secs : List SecBuf) :
+    M (LoadSt × List SecBuf) :=
+  if load_sections_entsize_bad (Hdr.e_shnum c enc hdr) (Hdr.ident hdr EI_CLASS) (Hdr.e_shentsize c enc hdr)
+  then pure (ls, secs) else
+    if Hdr.e_shstrndx c enc hdr == BitVec.ofNat 16 SHN_UNDEF then pure (ls, secs) else
+    match secs[(Hdr.e_shstrndx c enc hdr).toNat]? with
+    | none => pure (ls, secs)
+    | some strtab => do
+      let secs ← resolveNames (secGetData c tr ls strtab).2
+        (secs.set (Hdr.e_shstrndx c enc hdr).toNat (secGetData c tr ls strtab).2)
+      pure ((secGetData c tr ls strtab).1, secs)
+
+def loadSegs (o : Obj) (c : Cls) (enc : Enc) (hdr : Bytes) (isLazy : Bool) (ls : LoadSt) (secs : List SecBuf) :
+    LoadRes :=
+  if load_segments_entsize_bad (Hdr.e_phnum c enc hdr) (Hdr.ident hdr EI_CLASS) (Hdr.e_phentsize c enc hdr) then
+    { obj := { o with secs := secs, stream := ls.st }, ok := false, allocs := ls.allocs }
+  else
+    let r := loadSegmentsLoop c enc o.trans isLazy (Hdr.e_phoff c enc hdr).toInt (Hdr.e_phentsize c enc hdr).toNat
+      secs (Hdr.e_phnum c enc hdr).toNat 0 ls []
+    { obj := { o with secs := secs, segs := r.2.1, stream := r.1.st }, ok := r.2.2, allocs := r.1.allocs }
+
+def loadBody (o : Obj) (c : Cls) (enc : Enc) (hdr : Bytes) (st : IStream) (isLazy : Bool) : M LoadRes := do
+  let p ← loadNames c enc o.trans hdr (loadSections c enc o.trans isLazy hdr st).1
+            (loadSections c enc o.trans isLazy hdr st).2
+  pure (loadSegs o c enc hdr isLazy p.1 p.2)
+
+def loadFail (o : Obj) (st : IStream) : M LoadRes := pure { obj := { o with stream := st }, ok := false, allocs := [] }
+
+theorem load_eq (o : Obj) (st : IStream) (isLazy : Bool) :
+    load o st isLazy =
+      let o1 := { o with secs := [], segs := [] }
+      let r1 := (st.seekg (trApply o.trans 0)).read 16
+      let idb (i : Nat) : Nat := (r1.2.getD i 0).toNat
+      if r1.1.gcount != 16 then loadFail o1 r1.1 else
+      if idb 0 != ELFMAG0 || idb 1 != ELFMAG1 || idb 2 != ELFMAG2 || idb 3 != ELFMAG3 then loadFail o1 r1.1 else
+      match clsOfByte (idb EI_CLASS), encOfByte (idb EI_DATA) with
+      | none, _ => loadFail o1 r1.1
+      | some _, none => loadFail o1 r1.1
+      | some c, some enc =>
+        let r2 := (r1.1.seekg (trApply o.trans 0)).read (ehdrSize c)
+        let hdr := wr (Hdr.create c enc (idb EI_DATA)) 0 r2.2
+        let o2 := { o1 with cls := c, enc := enc, hdr := some hdr }
+        if r2.1.gcount != ehdrSize c then loadFail o2 r2.1 else loadBody o2 c enc hdr r2.1 isLazy := by
+  unfold load loadBody loadNames loadSections loadSegs loadFail
+  simp only []
+  split
+  · rfl
+  · split
+    · rfl
+    · generalize clsOfByte _ = x
+      generalize encOfByte _ = y
+      cases x <;> cases y <;> simp only []
+      repeat' split
+      all_goals first | rfl | (simp_all; done)
+
+/-! ### the gate: magic, class, encoding, ELF header -/
+
+theorem wrField_length (e : Enc) (n x : Nat) : (wrField e n x).length = n := by
+  have hl : hostIsLittle = true := rfl
+  simp [wrField, hostEncode, hl]
+
+theorem wr_length_gen (b src : Bytes) (off : Nat) :
+    (wr b off src).length = min off b.length + src.length + (b.length - (off + src.length)) := by
+  unfold wr; simp; omega
+
+theorem Hdr.create_length (c : Cls) (enc : Enc) (x : Nat) : (Hdr.create c enc x).length = ehdrSize c := by
+  cases c <;>
+  · unfold Hdr.create
+    simp only [wr_length_gen, wrField_length, List.length_replicate, List.length_cons, List.length_nil, ehdrSize]
+    decide
+
+theorem wr_over (z src : Bytes) (h : z.length ≤ src.length) : wr z 0 src = src := by
+  unfold wr; simp [List.drop_eq_nil_of_le h]
+
+theorem getD_slice0 (img : Bytes) (n i : Nat) (h : i < n) : (slice img 0 n).getD i 0 = img.getD i 0 := by
+  unfold slice
+  simp [List.getD_eq_getElem?_getD, List.getElem?_take, h]
+
+theorem seekg_zero (st : IStream) (hf : st.fail = false) : st.seekg 0 = { st with pos := 0, eof := false } := by
+  have := IStream.seekg_ok st hf 0 (by decide) (by simp)
+  simpa using this
+
+theorem sixteen_le_ehdr (c : Cls) : 16 ≤ ehdrSize c := by cases c <;> decide
+
+/-- **header rung** : on an image with a valid identification and a complete ELF header the loader
+    passes the gate with the header struct = the first `ehdrSize` bytes of the file -/
+theorem load_gate (o : Obj) (st : IStream) (isLazy : Bool) (c : Cls) (enc : Enc) (htr : o.trans = [])
+    (he : st.eof = false) (hf : st.fail = false)
+    (hm0 : (st.data.getD 0 0).toNat = ELFMAG0) (hm1 : (st.data.getD 1 0).toNat = ELFMAG1)
+    (hm2 : (st.data.getD 2 0).toNat = ELFMAG2) (hm3 : (st.data.getD 3 0).toNat = ELFMAG3)
+    (hc : clsOfByte (st.data.getD EI_CLASS 0).toNat = some c)
+    (henc : encOfByte (st.data.getD EI_DATA 0).toNat = some enc)
+    (hlen : ehdrSize c ≤ st.data.length) :
+    load o st isLazy =
+      loadBody { o with secs := [], segs := [], cls := c, enc := enc, hdr := some (slice st.data 0 (ehdrSize c)) }
+        c enc (slice st.data 0 (ehdrSize c)) { st with pos := ehdrSize c, gcount := ehdrSize c } isLazy := by
+  have h16 := sixteen_le_ehdr c
+  rw [load_eq]
+  have e0 : trApply o.trans 0 = 0 := by rw [htr]; rfl
+  simp only [e0]
+  rw [seekg_zero st hf, IStream.read_ok { st with pos := 0, eof := false } rfl hf 16 (by simp; omega)]
+  simp only [Nat.zero_add, bne_self_eq_false, Bool.false_eq_true, if_false]
+  rw [getD_slice0 _ 16 0 (by decide), getD_slice0 _ 16 1 (by decide), getD_slice0 _ 16 2 (by decide),
+    getD_slice0 _ 16 3 (by decide), getD_slice0 _ 16 EI_CLASS (by decide), getD_slice0 _ 16 EI_DATA (by decide)]
+  simp only [hm0, hm1, hm2, hm3, hc, henc, bne_self_eq_false, Bool.or_self, Bool.false_eq_true, if_false]
+  rw [seekg_zero { st with pos := 0 + 16, eof := false, gcount := 16 } hf,
+    IStream.read_ok { st with pos := 0, eof := false, gcount := 16 } rfl hf (ehdrSize c) (by simp; omega)]
+  simp only [Nat.zero_add, bne_self_eq_false, Bool.false_eq_true, if_false]
+  rw [wr_over _ _ (by rw [Hdr.create_length, slice_length_of_le (by omega)]; exact Nat.le_refl _)]
+  congr 1
+  cases st; simp_all
+
 end ElfioVerif
